@@ -128,6 +128,8 @@ type WObs struct {
 	Panic    string   `json:"panic,omitempty"`
 	EventsOK bool     `json:"eventsOK"` // every event carried the call's context and the store's flag pointer
 	RawLogs  []string `json:"rawLogs,omitempty"`
+	// LogOps (model side only): for each log line, what it must mention besides the flag key
+	LogOps [][]string `json:"logOps,omitempty"`
 }
 
 type EvalCase struct {
